@@ -253,13 +253,23 @@ def execute(plan: dict, ch: Chooser) -> dict:
                 loop.call_at(adv["t"], early_deliver, adv)
         if mode == "agg":
             top = Controller(async_zeroconf_instance=mdns, char_cache=cache)
-            await top.async_start()
+            try:
+                await top.async_start()
+            except Exception as e:  # noqa: BLE001
+                # what the cache held when the controller started is an advertisement like any other: it must be ignored, not raise
+                ctx.violate("callback-raises", f"start/{type(e).__name__}", f"controller start raised {e!r} on a cache holding {'an incomplete service' if plan.get('prestart') else 'nothing special'}")
+                return
             ctls = {"ip": top.transports[TransportType.IP], "coap": top.transports[TransportType.COAP], "ble": top.transports[TransportType.BLE]}
             finder = top
         else:
             c = {"ip": lambda: IpController(char_cache=cache, zeroconf_instance=mdns), "coap": lambda: CoAPController(char_cache=cache, zeroconf_instance=mdns),
                  "ble": lambda: BleController(char_cache=cache)}[mode]()
-            await c.async_start()
+            try:
+                await c.async_start()
+            except Exception as e:  # noqa: BLE001
+                # what the cache held when the controller started is an advertisement like any other: it must be ignored, not raise
+                ctx.violate("callback-raises", f"start/{type(e).__name__}", f"controller start raised {e!r} on a cache holding {'an incomplete service' if plan.get('prestart') else 'nothing special'}")
+                return
             ctls = {mode: c}
             finder = c
             top = None
